@@ -24,9 +24,10 @@ except Exception:  # pragma: no cover
 def reset_globals(seed=0):
     """Process-global mutable state of py4hw is reset before and after every run; the two
     real randomness sources of the library are re-seeded from the run seed."""
+    # (only what an aborted run of the harness itself can leave behind is cleaned up: the list of prepared wires. Caches
+    # of the library - the wire-name cache of the Verilog generator, class attributes - are left alone: if they leak from
+    # one design into the next that is the library's behaviour, and the campaign reports it through a history replay)
     Wire.prepared = []
-    _rtl.wire_names_cache_obj = None
-    _rtl.wire_names_cache = None
     _random.seed(seed)
     if _np is not None:
         _np.random.seed(seed & 0xFFFFFFFF)
